@@ -107,6 +107,14 @@ Section Arith.
              (fun idx => p2_entry R w A B C P (nth 0 idx 0) (nth 1 idx 0) (nth 2 idx 0)).
 End Arith.
 
+(* the line-search candidate of parafac, entrywise: last + (cur - last) * jump *)
+Section LineSearch.
+  Context {F : Type} (add sub mul : F -> F -> F).
+  Definition ls_entry (jump l c : F) : F := add l (mul (sub c l) jump).
+  Definition ls_vec (jump : F) (l c : list F) : list F := map (fun p => ls_entry jump (fst p) (snd p)) (combine l c).
+  Definition ls_mat (jump : F) (L C : list (list F)) : list (list F) := map (fun p => ls_vec jump (fst p) (snd p)) (combine L C).
+End LineSearch.
+
 (* ------------------------------------------------------------------ part 2: control skeleton *)
 Fixpoint list_eqb (a b : list nat) : bool :=
   match a, b with [], [] => true | x :: a', y :: b' => Nat.eqb x y && list_eqb a' b' | _, _ => false end.
@@ -137,28 +145,59 @@ Definition eff_fixed (a : algo) (n : nat) (fixed : list nat) : list nat :=
 Definition modes_list (a : algo) (n : nat) (fixed : list nat) : list nat :=
   filter (fun m => negb (memb m (eff_fixed a n fixed))) (seq 0 n).
 
-Section Skel.
-  Context {M W : Type}.                       (* a factor; the weight vector *)
-  Record st := mkst { wts : W; facs : list M }.
+(* the hooks below exist in parafac only (orthogonalise, linesearch; mask / sparsity live in the error computation) *)
+Definition has_hooks (a : algo) : bool := match a with Parafac => true | _ => false end.
 
-  Variable upd : nat -> nat -> st -> M.       (* iteration, mode, whole current state |-> new factor *)
+Definition map2 {A B C} (f : A -> B -> C) (l1 : list A) (l2 : list B) : list C :=
+  map (fun p => f (fst p) (snd p)) (combine l1 l2).
+
+Section Skel.
+  (* a factor; the weight vector; everything else the loop carries from step to step: the (mask-imputed) data tensor and
+     its norm, the error history, the sparse component, ADMM's auxiliary and dual variables, the line search's
+     acceleration state.  Every function below may read the whole state, so a statement about the skeleton covers every
+     history-dependent numerical rule. *)
+  Context {M W X : Type}.
+  Record st := mkst { wts : W; facs : list M; aux : X }.
+
+  Variable upd : nat -> nat -> st -> M * X.   (* iteration, mode, whole current state |-> new factor, new bookkeeping *)
   Variable stop : nat -> st -> bool.          (* convergence / callback decision after a sweep *)
   Variable normf : st -> st.                  (* cp_normalize / tucker_normalize *)
   Variable normalize : bool.                  (* normalize_factors (default False) *)
+  (* parafac: `if orthogonalise and iteration <= orthogonalise: factors = [tl.qr(f)[0] if min(tl.shape(f)) >= rank else f
+     for i, f in enumerate(factors)]` -- an arbitrary function of the state applied before the sweep *)
+  Variable pre : nat -> st -> st.
+  Variable pre_on : nat -> bool.
+  (* after the sweep: error_calc (mask imputation `tensor*mask + rec*(1-mask)`, norm, sparse component, rec_errors) *)
+  Variable post : nat -> st -> X.
+  (* parafac line search: `line_iter = linesearch and iteration % 2 == 0 and iteration > 5`; the candidate is
+       new_weights = weights_last + (weights - weights_last) * jump
+       new_factors = [factors_last[ii] + (factors[ii] - factors_last[ii]) * jump for ii in range(ndim)]
+     where *_last are the copies taken at the start of the same iteration; accepted iff its error is smaller *)
+  Variable ls_on : nat -> bool.
+  Variable ls_accept : nat -> st -> st -> bool.
+  Variable lsf : nat -> st -> M -> M -> M.    (* iteration, current state (jump), last, current *)
+  Variable lsw : nat -> st -> W -> W -> W.
+  Variable lsx : nat -> st -> st -> X.
 
-  Definition set_fac (s : st) (m : nat) (v : M) : st := mkst (wts s) (set_nth m v (facs s)).
+  Definition set_fac (s : st) (m : nat) (r : M * X) : st := mkst (wts s) (set_nth m (fst r) (facs s)) (snd r).
 
   Definition step (a : algo) (it : nat) (ml : list nat) (s : st) (m : nat) : st :=
     let s1 := set_fac s m (upd it m s) in
     if normalize && inner_norm a && negb (Nat.eqb m (last ml 0)) then normf s1 else s1.
   Definition sweep (a : algo) (it : nat) (ml : list nat) (s : st) : st := fold_left (step a it ml) ml s.
 
+  Definition ls_point (it : nat) (s0 s1 : st) : st :=
+    mkst (lsw it s1 (wts s0) (wts s1)) (map2 (lsf it s1) (facs s0) (facs s1)) (lsx it s0 s1).
+
   Fixpoint iterate (a : algo) (budget it : nat) (ml : list nat) (s : st) : st :=
     match budget with
     | 0 => s
-    | S b => let s1 := sweep a it ml s in
-             let s2 := if normalize then normf s1 else s1 in
-             if stop it s2 then s2 else iterate a b (S it) ml s2
+    | S b => let s0 := if has_hooks a && pre_on it then pre it s else s in
+             let sw := sweep a it ml s0 in
+             let s1 := mkst (wts sw) (facs sw) (post it sw) in
+             let s2 := if has_hooks a && ls_on it && ls_accept it s0 s1 then ls_point it s0 s1 else s1 in
+             let s3 := if normalize then normf s2 else s2 in
+             if stop it s3 then s3 else iterate a b (S it) ml s3
     end.
 
   Definition run (a : algo) (n : nat) (fixed : list nat) (budget : nat) (tol : bool) (s : st) : res st :=
@@ -304,4 +343,9 @@ Section P2Skel.
              let s2 := if normalize then normf s1 else s1 in
              if stop it s2 then s2 else p2_iterate R b (S it) s2
     end.
+
+  (* the whole loop; since commit 1c1a684 `if normalize_factors: weights, factors = cp_normalize((weights, factors))` precedes it, so
+     that a call without an executed sweep returns the normalised initialisation *)
+  Definition p2_run (R budget : nat) (s : p2st F PT) : p2st F PT :=
+    p2_iterate R budget 0 (if normalize then normf s else s).
 End P2Skel.
